@@ -414,6 +414,15 @@ fn schema(root: &Path) -> Value {
                         enums.push(item)
                     }
                 }
+                "group" => {
+                    // `group Name(Generic, $field) { 1 => Variant(Type), … }` — a lookup-type
+                    // dispatch; carries no count/version/flag relation
+                    while p.i < p.s.len() && p.s[p.i] != b'{' {
+                        p.i += 1;
+                    }
+                    p.i += 1;
+                    p.balanced(b'{', b'}');
+                }
                 "format" => {
                     // `format u16 Name {` or `format DeltaFormat@4 Name {`
                     let repr = p.ident();
